@@ -702,6 +702,24 @@ class Fold:
                 if comp is not None and m.shape[1] == 1 and not isinstance(val, (Matrix, tuple)):
                     m[comp] = val
                     env[base["decl"]] = m
+                elif k == "opcall" and lhs["op"] == "()" and len(lhs["args"]) == 3 and not isinstance(val, (Matrix, tuple)):
+                    i_, j_ = self.ev(lhs["args"][1], env), self.ev(lhs["args"][2], env)
+                    if getattr(i_, "is_Integer", False) and getattr(j_, "is_Integer", False) and int(i_) < m.shape[0] and int(j_) < m.shape[1]:
+                        m[int(i_), int(j_)] = val
+                        env[base["decl"]] = m
+                elif k == "mcall" and short == "diagonal" and isinstance(val, Matrix) and val.shape == (min(m.shape), 1):
+                    for d_ in range(min(m.shape)):
+                        m[d_, d_] = val[d_]
+                    env[base["decl"]] = m
+                elif k == "mcall" and short in ("col", "row") and isinstance(val, Matrix) and lhs.get("args"):
+                    c_ = self.ev(lhs["args"][0], env)
+                    if getattr(c_, "is_Integer", False):
+                        for d_ in range(3):
+                            if short == "col" and val.shape == (m.shape[0], 1):
+                                m[d_, int(c_)] = val[d_]
+                            elif short == "row" and val.shape in ((1, m.shape[1]), (m.shape[1], 1)):
+                                m[int(c_), d_] = val[d_]
+                        env[base["decl"]] = m
 
     # ------------------------------------------------------------------ statements
     def run(self, env=None):
